@@ -37,6 +37,8 @@ func Defs() []*schema.StoreDef {
 			// favlist: a plain list of thing ids the application keeps itself (no index behind it); it may hold ids
 			// that name nothing, the empty string among them
 			{Name: "favlist", Kind: schema.KList, FK: Things},
+			// a map on the linked store: things reach its elements through their owner (owner.attrs.k)
+			{Name: "attrs", Kind: schema.KMap},
 			{Name: "things", Kind: schema.KList, FK: Things, Derived: true}}}
 	others := &schema.StoreDef{Type: Others, BasePath: []string{"stores"},
 		Fields: []schema.Field{{Name: "name", Kind: schema.KStr}, {Name: "rank", Kind: schema.KI64}, {Name: "tags", Kind: schema.KList},
@@ -114,7 +116,7 @@ var symbols = map[string]map[string]SymInfo{
 	Things: {"id": {Type: TStr}, "uk": {Type: TStr}, "s": {Type: TStr}, "ism": {Type: TInt}, "ibig": {Type: TInt}, "flt": {Type: TFloat}, "b": {Type: TBool}, "t": {Type: TTime}, "grp": {Type: TStr},
 		"tags": {Type: TStr, Set: true}, "nums": {Type: TStr, Set: true}, "owner": {Type: TStr, Target: Owners}, "friends": {Type: TStr, Set: true, Target: Others}, "meta": {Type: TAny, Map: true},
 		"peers": {Type: TStr, Set: true, Target: Things}, "peerof": {Type: TStr, Set: true, Target: Things}},
-	Owners: {"kidlist": {Type: TStr, Set: true, Target: Things, KidOnly: true}, "favlist": {Type: TStr, Set: true, Target: Things}, "id": {Type: TStr}, "name": {Type: TStr}, "age": {Type: TInt}, "active": {Type: TBool}, "tags": {Type: TStr, Set: true}, "things": {Type: TStr, Set: true, Target: Things}},
+	Owners: {"kidlist": {Type: TStr, Set: true, Target: Things, KidOnly: true}, "favlist": {Type: TStr, Set: true, Target: Things}, "id": {Type: TStr}, "name": {Type: TStr}, "age": {Type: TInt}, "active": {Type: TBool}, "tags": {Type: TStr, Set: true}, "things": {Type: TStr, Set: true, Target: Things}, "attrs": {Type: TAny, Map: true}},
 	Others: {"id": {Type: TStr}, "name": {Type: TStr}, "alias": {Type: TStr, NotNil: true}, "rank": {Type: TInt}, "tags": {Type: TStr, Set: true}, "things": {Type: TStr, Set: true, Target: Things}},
 }
 
@@ -161,6 +163,14 @@ func GenWorld(r *core.Rand, maxThings int, small bool) *World {
 	for _, id := range core.Subset(r, OwnerIds, 0.6) {
 		w.Rows[Owners][id] = &Row{Id: id, V: map[string]any{"name": pickNullable(r, sp, 0.25), "age": pickNullable(r, ip, 0.25), "active": pickNullable(r, []bool{true, false}, 0.25),
 			"tags": core.Subset(r, TagPool, 0.3)}}
+		attrs := map[string]any{}
+		if r.P(0.7) {
+			attrs["k"] = core.Pick(r, sp)
+		}
+		if r.P(0.5) {
+			attrs["n"] = core.Pick(r, ip[:4])
+		}
+		w.Rows[Owners][id].V["attrs"] = attrs
 	}
 	for _, id := range core.Subset(r, OtherIds, 0.6) {
 		w.Rows[Others][id] = &Row{Id: id, V: map[string]any{"name": pickNullable(r, sp, 0.25), "alias": pickNullable(r, sp, 0.4), "rank": pickNullable(r, ip[:6], 0.25), "tags": core.Subset(r, TagPool, 0.3)}}
